@@ -4,7 +4,8 @@
 (* processes (harness/src/bin/sim_run.rs):                                 *)
 (*   A, B : same seeds and parameters, progress bar off                     *)
 (*   C    : same seeds and parameters, progress bar on                      *)
-(*   D    : every seed shifted                                              *)
+(*   D    : every seed + 1 (adjacent seeds, including 0 -> 1)               *)
+(*   E    : every seed + 2^32 (seeds that differ only in the high word)     *)
 (* Each file is the concatenation of the runs of all configurations, every  *)
 (* run introduced by a "config" line.  A simulation is a function of seed   *)
 (* and parameters iff A = B = C line for line; and the seed matters iff     *)
@@ -16,6 +17,7 @@ A == ndJsonDeserialize(IOEnv.TRACE)
 B == ndJsonDeserialize(IOEnv.TRACE2)
 C == ndJsonDeserialize(IOEnv.TRACE3)
 D == ndJsonDeserialize(IOEnv.TRACE4)
+E == ndJsonDeserialize(IOEnv.TRACE5)
 
 FirstDiff(X, Y) ==
   LET n == IF Len(X) <= Len(Y) THEN Len(X) ELSE Len(Y)
@@ -38,7 +40,9 @@ SameSeedSame == FirstDiff(A, B) = 0 /\ FirstDiff(A, C) = 0
 \* a run with at least 20 orders cannot plausibly coincide under two seeds (tiny runs can: they are not judged)
 Orders(X) == Len(SelectSeq(X, LAMBDA e : e.op = "order"))
 Substantial(k) == Orders(Seg(A, k)) >= 20
-SeedMatters  == Cardinality(Marks(D)) = NRuns /\ \A k \in 1..NRuns : Substantial(k) => Seg(A, k) # Seg(D, k)
+SameAs(X) == {k \in 1..NRuns : Cardinality(Marks(X)) = NRuns /\ Substantial(k) /\ Seg(A, k) = Seg(X, k)}
+SeedMatters  == /\ Cardinality(Marks(D)) = NRuns /\ Cardinality(Marks(E)) = NRuns
+                /\ SameAs(D) = {} /\ SameAs(E) = {}
 
 VARIABLE done
 Init == done = FALSE
@@ -54,5 +58,5 @@ Verdict ==
                                          at_AB |-> FirstDiff(A, B), at_AC |-> FirstDiff(A, C),
                                          line_A |-> IF FirstDiff(A, B) # 0 /\ FirstDiff(A, B) <= Len(A) THEN A[FirstDiff(A, B)]
                                                     ELSE IF FirstDiff(A, C) # 0 /\ FirstDiff(A, C) <= Len(A) THEN A[FirstDiff(A, C)] ELSE [op |-> "none"],
-                                         same_as_A_in_D |-> {k \in 1..NRuns : Cardinality(Marks(D)) = NRuns /\ Substantial(k) /\ Seg(A, k) = Seg(D, k)}])>>) /\ FALSE
+                                         same_as_A_with_seed_plus_1 |-> SameAs(D), same_as_A_with_seed_plus_2_32 |-> SameAs(E)])>>) /\ FALSE
 =============================================================================
